@@ -4,5 +4,6 @@ CONSTANTS
   MaxSpecial = 1
   OpsUsed = {"*", "/", "+", "=", "AND", "OR"}
   SubOps = {"*", "+", "=", "AND", "OR"}
+  Nest = {1}
 INVARIANTS Agree Fold ReparseStable
 CHECK_DEADLOCK FALSE
